@@ -5,7 +5,11 @@ import traceback
 
 
 class Result:
+    primary = None      # the first Result created in a worker: kept (with its failures) if the shard crashes later
+
     def __init__(self):
+        if Result.primary is None:
+            Result.primary = self
         self.evaluations = 0
         self.digests = set()        # digests of distinct non-trivial cases (unioned across shards)
         self.disjoint = 0           # non-trivial cases that are distinct by construction (summed across shards)
